@@ -9,6 +9,7 @@ mtime forward by >= 1 s.
 usage: index_update.py [N]  (seed from VERIF_SEED) -> JSON report, last line of stdout
 """
 import logging; logging.disable(logging.CRITICAL)  # noqa: E702
+import _memfs  # noqa: E402
 import hashlib, json, os, random, sys, tempfile, time  # noqa: E401
 
 SRC = os.environ.get("PYVC_REPO_SRC", "/repo/src")
@@ -115,6 +116,7 @@ def main():
     rng = random.Random(int(os.environ.get("VERIF_SEED", "1")))
     failures, evals = [], 0
     for _ in range(n):
+        _memfs.reset()
         try:
             failures += run_history(rng)
         except Exception as e:  # noqa: BLE001
